@@ -27,6 +27,8 @@ type Dict struct {
 	NLPPhrases []string
 	// names the program asks the environment for (first argument of os.Getenv / os.LookupEnv, literal)
 	EnvNames []string
+	// single-word literals of the package that analyses the working directory (marker names, project types, boost words)
+	ContextWords []string
 }
 
 var dictCache = map[string]*Dict{}
@@ -40,6 +42,7 @@ func SourceDict(repo string) *Dict {
 	words, phrases, hot := map[string]bool{}, map[string]bool{}, map[string]bool{}
 	nlpW, nlpP := map[string]bool{}, map[string]bool{}
 	envs := map[string]bool{}
+	ctxW := map[string]bool{}
 	consts, envIdents := map[string]string{}, map[string]bool{} // string constants by name; identifiers passed to Getenv / LookupEnv
 	fset := token.NewFileSet()
 	for _, root := range []string{"internal", "cmd"} {
@@ -52,6 +55,7 @@ func SourceDict(repo string) *Dict {
 				return nil
 			}
 			isNLP := strings.Contains(p, "/nlp/")
+			isCtx := strings.Contains(p, "/context/")
 			isHot := false
 			for _, h := range []string{"/nlp/", "/database/", "/cli/", "/validation/", "/context/"} {
 				if strings.Contains(p, h) {
@@ -100,6 +104,9 @@ func SourceDict(repo string) *Dict {
 					return true
 				}
 				if len(fs) == 1 {
+					if isCtx && len(fs[0]) <= 24 && !strings.ContainsAny(fs[0], "/\\*?%") {
+						ctxW[fs[0]] = true
+					}
 					words[fs[0]] = true
 					if isHot {
 						hot[fs[0]] = true
@@ -133,7 +140,7 @@ func SourceDict(repo string) *Dict {
 			envs[v] = true
 		}
 	}
-	d := &Dict{Words: keys(words), Phrases: keys(phrases), Hot: keys(hot), NLPWords: keys(nlpW), NLPPhrases: keys(nlpP), EnvNames: keys(envs)}
+	d := &Dict{Words: keys(words), Phrases: keys(phrases), Hot: keys(hot), NLPWords: keys(nlpW), NLPPhrases: keys(nlpP), EnvNames: keys(envs), ContextWords: keys(ctxW)}
 	dictCache[repo] = d
 	return d
 }
